@@ -64,14 +64,15 @@ func runReal(bin, dir string, p ProcSpec, stdin []byte) (realOut, error) {
 		code = ee.ExitCode()
 	}
 	files := map[string]string{}
-	ents, _ := os.ReadDir(dir)
-	for _, e := range ents {
-		if e.IsDir() {
-			continue
+	filepath.WalkDir(dir, func(path string, d os.DirEntry, err error) error {
+		if err != nil || d.IsDir() {
+			return nil
 		}
-		b, _ := os.ReadFile(filepath.Join(dir, e.Name()))
-		files[e.Name()] = string(b)
-	}
+		rel, _ := filepath.Rel(dir, path)
+		b, _ := os.ReadFile(path)
+		files[filepath.ToSlash(rel)] = string(b)
+		return nil
+	})
 	return realOut{code, so.Bytes(), se.Bytes(), files}, nil
 }
 
